@@ -801,7 +801,7 @@ func runC14(c *core.Ctx) {
 	env.workdir = filepath.Join(c.OutDir, "pools")
 	_ = os.MkdirAll(env.workdir, 0o755)
 	defer os.RemoveAll(env.workdir)
-	c.Res.Rule = "files of 1-3 row groups (int64, dictionary string, optional plain string, repeated int32 columns; v1/v2 pages, snappy/zstd/gzip/none, bloom filters inline and deferred, page index, plaintext-footer and encrypted-footer encryption, MaxRowsPerRowGroup) written through Write batches / Flush / Close against a destination following a fault script: error at byte offset k or one short count with nil error at k; k = every offset (thorough, small files) or first 16, last 64, +-1 around every module boundary of the footer and a random stride (quick; +-2 and denser strides in thorough); x WriteBufferSize {0, 7, 100, default} x page buffers {default, 64-byte chunks, temp files} x bloom filters {inline, deferred in memory, deferred in files}. A case is one (file, configuration, fault); all are non-trivial (the fault lies inside the file). Plus every prefix length of every file through OpenFile + full read under the default file options and under 18 option sets (OptimisticRead x ReadBufferSize 1/7/8/9/64/65536/default, ReadBufferSize 16/64, SkipPageIndex, SkipBloomFilters, PrefetchBloomFilters, async read mode, SkipMagicBytes and combinations; encrypted files also under each of these WITHOUT the keys, complete file included: an error, never a panic; the data of every file plants trailers ending in PAR1 and in PARE; error class of the open compared with the model of the open stages under these options), ReadAt faults at every call index, File.ReadAt against the model, and failing page buffers. Copy path: every unencrypted file is copied with WriteRowGroup (same options, so that every column chunk is streamed from the source) x WriteBufferSize {0, 7, 100, default} x bloom filters {copied inline, deferred in memory, deferred in files}; each copied section (dictionary page, data pages, bloom filter) in turn delivers only {0, 1, n/2, n-1} of its n bytes exactly when it is copied; destination faults at the module boundaries of the copy and a stride. Reader's demand: the (offset, length) of every ReadAt of OpenFile + full read with ReadBufferSize {default, 64, 16} against the model's demand."
+	c.Res.Rule = "files of 1-3 row groups (int64, dictionary string, optional plain string, repeated int32 columns; v1/v2 pages, snappy/zstd/gzip/none, bloom filters inline and deferred, page index, plaintext-footer and encrypted-footer encryption, MaxRowsPerRowGroup) written through Write batches / Flush / Close against a destination following a fault script: error at byte offset k or one short count with nil error at k; k = every offset (thorough, small files) or first 16, last 64, +-1 around every module boundary of the footer and a random stride (quick; +-2 and denser strides in thorough); x WriteBufferSize {0, 7, 100, default} x page buffers {default, 64-byte chunks, temp files} x bloom filters {inline, deferred in memory, deferred in files}. A case is one (file, configuration, fault); all are non-trivial (the fault lies inside the file). Plus every prefix length of every file through OpenFile + full read under the default file options and under 18 option sets (OptimisticRead x ReadBufferSize 1/7/8/9/64/65536/default, ReadBufferSize 16/64, SkipPageIndex, SkipBloomFilters, PrefetchBloomFilters, async read mode, SkipMagicBytes and combinations; encrypted files also under each of these WITHOUT the keys, complete file included: an error, never a panic; the data of every file plants trailers ending in PAR1 and in PARE; error class of the open compared with the model of the open stages under these options), ReadAt faults at every call index, File.ReadAt against the model, and failing page buffers. Copy path: every unencrypted file is copied with WriteRowGroup (same options, so that every column chunk is streamed from the source) x WriteBufferSize {0, 7, 100, default} x bloom filters {copied inline, deferred in memory, deferred in files}; each copied section (dictionary page, data pages, bloom filter) in turn delivers only {0, 1, n/2, n-1} of its n bytes exactly when it is copied; destination faults at the module boundaries of the copy and a stride. Reader's demand: the (offset, length) of every ReadAt of OpenFile + full read with ReadBufferSize {default, 64, 16} against the model's demand. Sources failing AFTER OpenFile x SeekToRow histories (seek.go): dedicated files whose column chunks hold many small pages (v1 and v2 pages, none/snappy, 1-2 row groups, one encrypted; thorough adds zstd, gzip, three row groups, encrypted footer) opened with and without page index (SkipPageIndex) x ReadBufferSize {default, 64}; then the source loses its tail (first byte, middle of the header, first, middle and last byte of the body of every page) or one ReadAt call fails (error, short count with io.EOF / io.ErrUnexpectedEOF / another error; every call of the history); read after one SeekToRow a third / two thirds into the row group or to its last row, or after a short seek, one batch and a seek far ahead, through the Pages of the column chunk, GenericReader with 1 and 17 rows per call and the deprecated Reader; predicate: what is delivered differs from what the same history delivers over the intact source only together with a non-EOF error, and is a prefix of it; model: seek_read_pages (pages returned, end | unexpected) for the Pages of a chunk after one seek over a truncated source."
 
 	if c.HasOracle() {
 		if ans := c.Ask("c14.flags"); !strings.HasSuffix(ans, " 1") || strings.Contains(strings.Split(ans, " ")[0], "0") {
@@ -926,6 +926,17 @@ func runC14(c *core.Ctx) {
 		}
 	}
 	env.fileReadAt(&specs[1])
+	// sources failing after OpenFile x SeekToRow histories (seek.go)
+	{
+		t0 := time.Now()
+		sspecs := c14SeekSpecs(c)
+		for i := range sspecs {
+			env.seekFaults(&sspecs[i])
+		}
+		if os.Getenv("C14_TIMES") != "" {
+			fmt.Fprintf(os.Stderr, "c14: seek scenario: %v\n", time.Since(t0))
+		}
+	}
 	if ents, err := os.ReadDir(env.workdir); err == nil && len(ents) > 0 {
 		c.Note("%d temp files of the file-backed page buffer pools were left behind by writers whose destination failed (resource observation, not part of C14)", len(ents))
 	}
@@ -1967,6 +1978,8 @@ func replayC14(c *core.Ctx, raw json.RawMessage) {
 		env.copyTruncated(sp, lay)
 	case "pagebuf":
 		env.pageBufferFaults(sp)
+	case "seek":
+		env.replaySeek(raw)
 	case "copy":
 		var crp c14CopyReplay
 		if err := json.Unmarshal(raw, &crp); err == nil {
